@@ -326,6 +326,7 @@ func newR(c *Case, opts ROpts, db *TDB, done func()) *REnv {
 		dst = &to
 	}
 	db.Prepare(rules, Origin, Coinbase, dst, rvm.ActivePrecompiles(rules), accessList(c))
+	db.SetDeleteEmpty(c.Fork >= Spurious)
 	return &REnv{db, evm, done}
 }
 
@@ -514,6 +515,7 @@ func newA(c *Case, opts AOpts, db *TDB, done func()) *AEnv {
 		dst = &to
 	}
 	db.Prepare(rules, Origin, Coinbase, dst, avm.ActivePrecompiles(rules), accessList(c))
+	db.SetDeleteEmpty(c.Fork >= Spurious)
 	h := opts.Host
 	if h == nil {
 		h = &Host{}
